@@ -478,7 +478,7 @@ pub const SUFFIXY: &[&str] = &["text", "text_content", "text_content_1", "x", "x
 pub const UNDERSCORE: &[&str] = &["_a", "a_", "_x_", "__a", "a__b", "_type", "_Type", "_ref", "__loop", "_self", "_id", "type_"];
 
 pub const NONASCII: &[&str] = &[
-    "aⅣb", "ΟΔΟΣ", "ıI", "ǈ", "ﬅ", "σς", "ǉ", "ŉ", "ǰ", "𐐀𐐩", "𐐨", "𝒳", "e\u{301}", "E\u{301}cole", "Åb", "ǅ", "ǲ", "ΐ", "ﬃ", "ẞ", "ǆx", "Ω", "ω",
+    "Ⅳ", "Ⅻa", "aⅣb", "ΟΔΟΣ", "ıI", "ǈ", "ﬅ", "σς", "ǉ", "ŉ", "ǰ", "𐐀𐐩", "𐐨", "𝒳", "e\u{301}", "E\u{301}cole", "Åb", "ǅ", "ǲ", "ΐ", "ﬃ", "ẞ", "ǆx", "Ω", "ω",
     "Имя", "имя", "ИМЯ", "Коммерческая", "Ελληνικά", "ελληνικά", "straße", "Straße", "İstanbul", "ǆ", "ǅ", "日本", "名前", "データ", "élan", "Élan", "naïve", "ÀB", "àb", "ß", "ﬁ",
 ];
 
